@@ -162,10 +162,18 @@ def agrees(v: float, fr: Fraction) -> bool:
 # ------------------------------------------------------------------------------------------
 # running the implementation
 
+# physical unit of the stored intensities: the patterns of a CoM case are multiplied by 2**_UNIT_EXP
+# (exact in binary floating point, so every path must return the SAME centre of mass bit for bit:
+# the intensity-weighted mean does not depend on the unit - counts, amperes, ... - the data is stored in)
+_UNIT_EXP = 0
+
+
 def _dataset(I4, dtype="float32"):
     from quantem.core.datastructures import Dataset4dstem
-    return Dataset4dstem.from_array(np.array(I4, dtype=np.dtype(dtype)), sampling=(1, 1, 1, 1),
-                                    units=("A", "A", "A^-1", "A^-1"))
+    a = np.array(I4, dtype=np.dtype(dtype))
+    if _UNIT_EXP and a.dtype.kind == "f":
+        a = a * a.dtype.type(2.0 ** _UNIT_EXP)
+    return Dataset4dstem.from_array(a, sampling=(1, 1, 1, 1), units=("A", "A", "A^-1", "A^-1"))
 
 
 def mask_array(case):
@@ -295,12 +303,24 @@ def gen_com_case(r, quick=True):
     if pow2 and mask is not None:      # the adjustment may have been impossible for a fractional mask
         tot = [sum(p[i][j] * mask[i][j] for i in range(H) for j in range(W)) for row in I4 for p in row]
         pow2 = all(t & (t - 1) == 0 for t in tot)
+    dtype = r.choice(["float32", "float32", "uint16", "float64"])
+    # 35 % of the float cases store the same patterns in another unit (totals from 1e-16 to 1e14)
+    unit_exp = r.choice([-60, -44, -36, -30, 40]) if dtype != "uint16" and r.random() < 0.35 else 0
     return {"kind": "com", "Rn": Rn, "Cn": Cn, "H": H, "W": W, "mask": mask, "mask_den": den, "mask_kind": mkind,
-            "dtype": r.choice(["float32", "float32", "uint16", "float64"]), "pow2": pow2, "I4": I4}
+            "dtype": dtype, "pow2": pow2, "I4": I4, "unit_exp": unit_exp}
 
 
 def com_impl(case):
     """all implementation observables of one CoM case"""
+    global _UNIT_EXP
+    _UNIT_EXP = int(case.get("unit_exp", 0))
+    try:
+        return _com_impl(case)
+    finally:
+        _UNIT_EXP = 0
+
+
+def _com_impl(case):
     I4, mask = case["I4"], mask_array(case)
     dt = case.get("dtype", "float32")
     n = case["Rn"] * case["Cn"]
@@ -477,6 +497,7 @@ def check_com(ctx: Ctx):
         ctx.dist("com/detector=%s" % ("square" if case["H"] == case["W"] else "non-square"))
         ctx.dist("com/mask=%s" % (case.get("mask_kind", "binary") if case["mask"] is not None else "no"))
         ctx.dist("com/dataset_dtype=%s" % case.get("dtype", "float32"))
+        ctx.dist("com/intensity_unit=2^%d" % case.get("unit_exp", 0))
         if case["mask"] is not None:
             dead_r = [i for i, row in enumerate(case["mask"]) if not any(row)]
             dead_c = [j for j in range(case["W"]) if not any(row[j] for row in case["mask"])]
